@@ -1107,7 +1107,16 @@ struct Explorer {
         x.facts.set("restat", v->stmts[p->second].restat);
         x.facts.set("generator", v->stmts[p->second].generator);
       }
-      x.facts.set("restat_pruned_with_unloaded_deps_in_base_build", base_restat_pruned.count(id) > 0);
+      {
+        // ... the statement itself, or one upstream of it that therefore runs now and rewrites what this one reads
+        bool pruned = base_restat_pruned.count(id) > 0;
+        if (!pruned && p != v->producer.end()) {
+          set<int> up;
+          Upstream(*v, p->second, &up);
+          for (int u : up) if (base_restat_pruned.count(v->stmts[u].id) && actual.count(v->stmts[u].id)) pruned = true;
+        }
+        x.facts.set("restat_pruned_with_unloaded_deps_in_base_build", pruned);
+      }
       out->push_back(x);
     }
   }
